@@ -40,6 +40,8 @@ def expr_render(e, top=True) -> str:
         return "{" + e[1] + "}"
     if k == "holeattr":
         return "{" + e[1] + "." + e[2] + "}"
+    if k == "holeidx":
+        return "{" + e[1] + "." + e[2] + "[" + str(e[3]) + "]}"
     raise AssertionError(e)
 
 
@@ -54,7 +56,7 @@ def expr_names(e):
 
 def expr_holes(e):
     k = e[0]
-    if k in ("hole", "holeattr"):
+    if k in ("hole", "holeattr", "holeidx"):
         return {e[1]}
     if k in ("bin", "call"):
         return expr_holes(e[2]) | expr_holes(e[3])
@@ -94,6 +96,10 @@ def expr_eval(e, single: dict, args: dict) -> int:
         if e[1] not in args:
             raise Unbound("{" + e[1] + "}")
         return getattr(args[e[1]], e[2])
+    if k == "holeidx":
+        if e[1] not in args:
+            raise Unbound("{" + e[1] + "}")
+        return getattr(args[e[1]], e[2])[e[3]]
     raise AssertionError(e)
 
 
